@@ -223,6 +223,8 @@ class BuiltinCalls:
             p_ = I.alloc(state, DictObj(flags=frozenset({"defaultdict"})), node, "defaultdict")
             I.default_factories[p_.loc] = args[0] if args else NoneV()
             return p_
+        if ext == "collections.Counter" and len(args) <= 1 and not kwargs:
+            return self.counter_new(state, args, node)
         if ext == "collections.OrderedDict" and not args and not kwargs:
             return I.alloc(state, DictObj(), node, "dict")
         if ext == "statistics.NormalDist":
@@ -376,7 +378,7 @@ class BuiltinCalls:
         start = args[1] if len(args) > 1 else kwargs.get("start")
         kv = s.kvar
         if start is None or (isinstance(start, Num) and start.const == 0):
-            idx = Num(kinds=INT, rng=Interval(0.0, max(s.length.hi - 1, 0) if s.length.hi < INF else INF, False, s.length.hi == INF), deg=F0, sym=("idx", ivar(kv)), prov=frozenset())
+            idx = Num(kinds=INT, rng=Interval(0.0, max(s.length.hi - 1, 0) if s.length.hi < INF else INF, False, s.length.hi == INF), deg=F0, sym=("idx", ivar(kv)), prov=I.pos_tags(s.length))
             flags = s.flags
         else:
             idx = Num(kinds=INT, rng=Interval(0.0, INF, False, True) if isinstance(start, Num) and start.rng is not None and start.rng.ge0() else None, deg=F0)
@@ -797,7 +799,7 @@ class BuiltinCalls:
             hi = max(n.rng.hi, 0) if n.rng is not None else INF
             if n.const is not None:
                 term, lo, hi = ("const", int(n.const)), int(n.const), int(n.const)
-            idx = Num(kinds=INT, rng=Interval(0.0, max(hi - 1, 0) if hi < INF else INF, False, hi == INF), deg=F0, sym=("idx", ivar("k")))
+            idx = Num(kinds=INT, rng=Interval(0.0, max(hi - 1, 0) if hi < INF else INF, False, hi == INF), deg=F0, sym=("idx", ivar("k")), prov=I.pos_tags(Length(term, lo, hi)))
             return Seq(Length(term, lo, hi), idx, "k", None, None, frozenset(), "iter")
         lo_n, hi_n = nums[0], nums[1]
         if len(nums) >= 3:
@@ -815,6 +817,9 @@ class BuiltinCalls:
             if isinstance(cs[2], int) and cs[2] == 0:
                 I.do_raise(state, "ValueError", node, implicit=True, mro=("ValueError", "Exception"))
                 return Bottom()
+            st_ = self._stride_range(nums, node)
+            if st_ is not None:
+                return st_
             lo_b = min(x.rng.lo for x in nums[:2]) if all(x.rng is not None for x in nums[:2]) else -INF
             hi_b = max(x.rng.hi for x in nums[:2]) if all(x.rng is not None for x in nums[:2]) else INF
             return Seq(Length(None, 0, INF), Num(kinds=INT, rng=Interval(lo_b, hi_b, False, False), deg=F0, prov=_prov(*nums)), "k", None, None, frozenset({"range", "reordered"}), "iter")
@@ -833,6 +838,34 @@ class BuiltinCalls:
             cnt_hi = max(hi_n.rng.hi - lo_n.rng.lo, 0)
             cnt_lo = max(int(hi_n.rng.lo - lo_n.rng.hi), 0) if hi_n.rng.lo > -INF and lo_n.rng.hi < INF else 0
         return Seq(Length(None, cnt_lo, cnt_hi), Num(kinds=INT, rng=rng, deg=F0, prov=_prov(*nums)), "k", None, None, frozenset({"range"}), "iter")
+
+    def _stride_range(self, nums, node):
+        """range(0, len(L), k) with a positive k: the starts 0, k, 2k, ... of the consecutive k-chunks of L. Element j is named
+        j * k; when L is permutations(S, 2) and k = len(S) - 1 there are exactly len(S) of them (see chunk_pairs)."""
+        from ..poly import p_add, p_atom, p_const, to_poly
+        from .values import mk_sym
+
+        I = self.I
+        lo_n, hi_n, k_n = nums[:3]
+        ksym = k_n.sym if k_n.sym is not None else (("const", k_n.const) if isinstance(k_n.const, int) and not isinstance(k_n.const, bool) else None)
+        if lo_n.const != 0 or isinstance(lo_n.const, bool) or hi_n.sym is None or hi_n.sym[0] != "lenterm" or ksym is None:
+            return None
+        if k_n.rng is None or not (k_n.rng.lo >= 1):
+            return None
+        stop_term = hi_n.sym[1]
+        length = None
+        if isinstance(stop_term, tuple) and stop_term and stop_term[0] == "pairs":
+            base = I.pairs_base.get(stop_term[1])
+            if base is not None and (to_poly(ksym) == p_add(p_atom(("lenterm", stop_term[1])), p_const(1), -1) or (k_n.const is not None and base.lo == base.hi == k_n.const + 1)):
+                length = base
+        if length is None:
+            n_hi = INF if hi_n.rng is None or hi_n.rng.hi == INF else math.ceil(hi_n.rng.hi / max(k_n.rng.lo, 1))
+            length = Length(("chunks", stop_term, ("num", ksym)), 0, n_hi)
+        sym = ("idx", ivar("k")) if k_n.const == 1 else mk_sym("mul", ("idx", ivar("k")), ksym)
+        if sym is None:
+            return None
+        elem = Num(kinds=INT, rng=Interval(0.0, hi_n.rng.hi if hi_n.rng is not None else INF, False, True), deg=F0, sym=sym, prov=_prov(*nums))
+        return Seq(length, elem, "k", None, None, frozenset({"range", "stride"}), "iter")
 
     def b_iter(self, args, kwargs, node, state):
         I = self.I
@@ -1135,7 +1168,7 @@ class BuiltinCalls:
             rng = None
             if x.rng is not None:
                 ok = x.rng.ge0()
-                I.oblige("sqrt", node, ok, f"sqrt argument range {x.rng} " + ("is >= 0" if ok else "may be negative"), arg=str(x.rng))
+                I.oblige("sqrt", node, ok, f"sqrt argument range {x.rng} " + ("is >= 0" if ok else "may be negative"), arg=str(x.rng), operands=(x,))
                 rng = x.rng.sqrt()
             deg = None if x.deg is None else (POLY if x.deg == POLY else x.deg / 2)
             r_ = Num(kinds=FLOAT, rng=rng, deg=deg, prov=prov, sym=sym)
@@ -1146,7 +1179,7 @@ class BuiltinCalls:
             rng = None
             if x.rng is not None:
                 ok = x.rng.hi <= EXP_MAX
-                I.oblige("exp", node, ok, f"exp argument range {x.rng} " + ("cannot overflow" if ok else "may exceed 709.78 (OverflowError)"), arg=str(x.rng))
+                I.oblige("exp", node, ok, f"exp argument range {x.rng} " + ("cannot overflow" if ok else "may exceed 709.78 (OverflowError)"), arg=str(x.rng), operands=(x,))
                 rng = x.rng.exp()
             return Num(kinds=FLOAT, rng=rng, deg=F0 if x.deg is not None else None, prov=prov, sym=sym)
         if name in ("log", "log2", "log10", "log1p"):
@@ -1154,7 +1187,7 @@ class BuiltinCalls:
             rng = None
             if x.rng is not None:
                 ok = x.rng.gt0() if name != "log1p" else x.rng.lo > -1
-                I.oblige("log", node, ok, f"{name} argument range {x.rng} " + ("is positive" if ok else "may be <= 0"))
+                I.oblige("log", node, ok, f"{name} argument range {x.rng} " + ("is positive" if ok else "may be <= 0"), operands=(x,))
                 rng = Interval.top()
                 if ok and name == "log":
                     rng = Interval(math.log(x.rng.lo) if x.rng.lo > 0 else -INF, math.log(x.rng.hi) if x.rng.hi < INF else INF, x.rng.lo_open or x.rng.lo == 0, x.rng.hi_open or x.rng.hi == INF)
@@ -1186,7 +1219,7 @@ class BuiltinCalls:
                         rng = rng.meet(Interval(0.0, min(math.erfc(x.rng.lo) * (1 + 1e-12), 2.0), False, False))
                 if name in ("cosh", "sinh"):
                     ok = x.rng.abs().hi <= 710
-                    I.oblige("exp", node, ok, f"{name} argument range {x.rng}")
+                    I.oblige("exp", node, ok, f"{name} argument range {x.rng}", operands=(x,))
                 I.axiom(f"math.{name} range {rng}")
             return Num(kinds=FLOAT, rng=rng, deg=F0 if x.deg is not None else None, prov=prov, sym=sym)
         if name in ("fabs",):
@@ -1290,7 +1323,7 @@ class BuiltinCalls:
             rng = None
             if x.rng is not None:
                 ok = x.rng.gt0() and (x.rng.hi < 1 or (x.rng.hi == 1 and x.rng.hi_open))
-                I.oblige("inv_cdf", node, ok, f"inverse-CDF argument range {x.rng} " + ("lies inside (0, 1)" if ok else "may leave (0, 1) (StatisticsError)"), arg=str(x.rng))
+                I.oblige("inv_cdf", node, ok, f"inverse-CDF argument range {x.rng} " + ("lies inside (0, 1)" if ok else "may leave (0, 1) (StatisticsError)"), arg=str(x.rng), operands=(x,))
                 rng = Interval.top()
                 if ok:
                     lo = _STD.inv_cdf(x.rng.lo) - 1e-9 if x.rng.lo > 0 else -INF
